@@ -120,7 +120,7 @@ pub fn all() -> Vec<PropDef> {
         PropDef {
             id: "C07",
             level: "exploration",
-            rule: "proptest scenarios of datagrams 0..=65507 bytes (standard requests, every aligned nonce length, truncated/extended by 1..=8 bytes, resized, field mutants: NONC removed/renamed, tag order, offsets, frame length +-k, magic, VER lists, SRV, header words/bits, junk, empty) in batches up to 70 at batch_size 1..=64, plus a grid of nonce lengths x protocol x batch depth; oracle per socket after the sentinel: replies only attributable (protocol + nonce echo) to well-formed 1024..=1500-byte requests of that socket, and len(reply) <= len(request) under the worst-case pairing. Non-trivial = well-formed datagram within 8 bytes of a size limit, in-range non-request, or answered request with non-standard nonce; distinct by bytes",
+            rule: "proptest scenarios of datagrams 0..=65507 bytes (standard requests, every aligned nonce length, truncated/extended by 1..=8 bytes, resized, field mutants: NONC removed/renamed, tag order, offsets, frame length +-k, magic, VER lists, SRV, header words/bits, junk, empty) in batches up to 70 at batch_size 1..=64, plus a grid of nonce lengths x protocol x batch depth, well-formed requests of every aligned length around both size limits, and codec-level crafted requests whose header words sit at buffer-size boundaries; oracle per socket after the sentinel: replies only attributable (protocol + nonce echo) to well-formed 1024..=1500-byte requests of that socket, and len(reply) <= len(request) under the worst-case pairing. Non-trivial = well-formed datagram within 8 bytes of a size limit, in-range non-request, or answered request with non-standard nonce; distinct by bytes",
             assumptions: &["classifier in refproto.rs is generous (only-if direction only): a server stricter than it is never flagged", "no-reply is asserted only after the sentinel's reply proved the datagram was consumed"],
             shards: s16,
             timeout_s: t_std,
@@ -190,7 +190,7 @@ pub fn all() -> Vec<PropDef> {
         PropDef {
             id: "C16",
             level: "exploration",
-            rule: "cfgprobe process (the product's make_config + is_valid_config) on configurations written as a YAML file or as ROUGHENOUGH_<KEY> environment variables: boundary grid (min-1, min, typical, max, max+1, 255, 256, 300, 65535, 65536, 70000, -1, -200, 2^31, 2^32+k) for port, batch_size, fault_percentage, num_workers, health_check_port; status_interval within 1..=65535; client_stats spellings; seeds of length 62/63/64/65/66 and non-hex; missing required keys; unknown key; plus proptest integers; oracle = model of the documentation: in range => accepted with exactly the written value, otherwise refused (error, invalid or panic), never accepted with a different value. Non-trivial = value outside the type width of the field it lands in (wrap candidate) or negative; distinct by probe",
+            rule: "cfgprobe process (the product's make_config + is_valid_config) on configurations written as a YAML file or as ROUGHENOUGH_<KEY> environment variables: boundary grid (min-1, min, typical, max, max+1, 255, 256, 300, 65535, 65536, 70000, -1, -200, 2^31, 2^32+k) for port, batch_size, fault_percentage, num_workers, health_check_port; status_interval within 1..=65535; client_stats spellings; seeds of length 62/63/64/65/66 and non-hex; missing required keys; unknown key; every probe also with client_stats on; plus proptest integers; behavioural twin: a server built in-process from the loaded file/ENV configuration must show the written fault_percentage (failing share within 6 sigma over 2400 replies) and batch_size (largest batch under 130-request bursts); oracle = model of the documentation: in range => accepted with exactly the written value, otherwise refused (error, invalid or panic), never accepted with a different value. Non-trivial = value outside the type width of the field it lands in (wrap candidate) or negative; distinct by probe",
             assumptions: &["ranges come from README and ServerConfig rustdoc as quoted in the property; values the documents do not classify (health port 0, status_interval 0 or > 65535) are not generated", "environment variable names are ROUGHENOUGH_ + upper-cased key as in the README table"],
             shards: s16,
             timeout_s: t_std,
